@@ -369,3 +369,96 @@ macro_rules! atomic {
 use std::sync::atomic::*;
 atomic!(AtomicBool: bool, AtomicU8: u8, AtomicI8: i8, AtomicU16: u16, AtomicI16: i16, AtomicU32: u32,
     AtomicI32: i32, AtomicU64: u64, AtomicI64: i64, AtomicUsize: usize, AtomicIsize: isize);
+
+// ---- time / net / misc ---------------------------------------------------------------------
+impl Bridge for std::time::Duration {
+    fn to_val(&self) -> Val {
+        Val::U(self.as_nanos())
+    }
+    fn from_val(v: &Val) -> Self {
+        let n = v.as_u();
+        std::time::Duration::new((n / 1_000_000_000) as u64, (n % 1_000_000_000) as u32)
+    }
+}
+impl Bridge for std::time::SystemTime {
+    fn to_val(&self) -> Val {
+        // documented encoding: nanoseconds since the epoch; bit 127 set for times before it
+        match self.duration_since(std::time::SystemTime::UNIX_EPOCH) {
+            Ok(d) => Val::U(d.as_nanos()),
+            Err(e) => Val::U(e.duration().as_nanos() | (1u128 << 127)),
+        }
+    }
+    fn from_val(v: &Val) -> Self {
+        let n = v.as_u();
+        let mag = n & ((1u128 << 127) - 1);
+        let d = std::time::Duration::new((mag / 1_000_000_000) as u64, (mag % 1_000_000_000) as u32);
+        if n >> 127 == 1 {
+            std::time::SystemTime::UNIX_EPOCH - d
+        } else {
+            std::time::SystemTime::UNIX_EPOCH + d
+        }
+    }
+}
+impl Bridge for chrono::DateTime<chrono::Utc> {
+    fn to_val(&self) -> Val {
+        Val::I(self.timestamp_nanos_opt().expect("in range") as i128)
+    }
+    fn from_val(v: &Val) -> Self {
+        chrono::DateTime::<chrono::Utc>::from_timestamp_nanos(v.as_i() as i64)
+    }
+}
+impl Bridge for savefile::Canary1 {
+    fn to_val(&self) -> Val {
+        Val::U(0x47566843)
+    }
+    fn from_val(_: &Val) -> Self {
+        savefile::Canary1::new()
+    }
+}
+impl<T: Bridge> Bridge for std::ops::Range<T> {
+    fn to_val(&self) -> Val {
+        Val::Tuple(vec![self.start.to_val(), self.end.to_val()])
+    }
+    fn from_val(v: &Val) -> Self {
+        let f = v.fields();
+        T::from_val(&f[0])..T::from_val(&f[1])
+    }
+}
+impl Bridge for std::net::IpAddr {
+    fn to_val(&self) -> Val {
+        match self {
+            std::net::IpAddr::V4(a) => Val::Variant(0, vec![Val::U(u32::from(*a) as u128)]),
+            std::net::IpAddr::V6(a) => Val::Variant(1, vec![Val::U(u128::from(*a))]),
+        }
+    }
+    fn from_val(v: &Val) -> Self {
+        match v {
+            Val::Variant(0, f) => std::net::IpAddr::V4(std::net::Ipv4Addr::from(f[0].as_u() as u32)),
+            Val::Variant(1, f) => std::net::IpAddr::V6(std::net::Ipv6Addr::from(f[0].as_u())),
+            _ => panic!("ipaddr from {:?}", v),
+        }
+    }
+}
+impl Bridge for std::net::SocketAddr {
+    fn to_val(&self) -> Val {
+        match self {
+            std::net::SocketAddr::V4(a) => Val::Variant(0, vec![Val::U(a.port() as u128), Val::U(u32::from(*a.ip()) as u128)]),
+            std::net::SocketAddr::V6(a) => Val::Variant(
+                1,
+                vec![Val::U(a.port() as u128), Val::U(u128::from(*a.ip())), Val::U(a.flowinfo() as u128), Val::U(a.scope_id() as u128)],
+            ),
+        }
+    }
+    fn from_val(v: &Val) -> Self {
+        match v {
+            Val::Variant(0, f) => std::net::SocketAddr::V4(std::net::SocketAddrV4::new(std::net::Ipv4Addr::from(f[0 + 1].as_u() as u32), f[0].as_u() as u16)),
+            Val::Variant(1, f) => std::net::SocketAddr::V6(std::net::SocketAddrV6::new(
+                std::net::Ipv6Addr::from(f[1].as_u()),
+                f[0].as_u() as u16,
+                f[2].as_u() as u32,
+                f[3].as_u() as u32,
+            )),
+            _ => panic!("socketaddr from {:?}", v),
+        }
+    }
+}
